@@ -81,11 +81,13 @@ def _copy(x):
         return x
 
 
-def gen_node(rng, tier, max_depth=None):
+def gen_node(rng, tier, max_depth=None, with_models=False):
     if max_depth is None:
         max_depth = 3 if tier == "quick" else 4
     depth = rng.choice(range(max_depth + 1))
-    return spec.gen_type(rng, depth)
+    if with_models:
+        from . import models  # noqa: F401, PLC0415  (installs spec.MODEL_HOOK)
+    return spec.gen_type(rng, depth, with_models=with_models)
 
 
 def is_provider_not_found(e):
